@@ -26,3 +26,24 @@ Lemma ErrorKind_or_tie : forall a b, gen_or a b = ONorm (enc (or a b)).
 Proof.
   intros [|ka ta|ta] [|kb tb|tb]; try destruct ka; try destruct kb; reflexivity.
 Qed.
+
+(* how errors enter and leave ErrorKind: a source read error (io::Error) is Io, whatever a loader
+   returns (a boxed error of ANY concrete type, io::Error included) is Conversion, and an ErrorKind
+   is handed out as the very error it carries *)
+Definition enters_as (variant : string) (f : fn_def) : bool :=
+  match fn_body f with
+  | [ECall (EPath ["Self"; v]) [EPath ["err"]]] => String.eqb v variant
+  | _ => false
+  end.
+Definition leaves_unchanged (f : fn_def) : bool :=
+  match fn_body f with
+  | [EMatch (EPath ["err"])
+       [(PPath ["ErrorKind"; "NoDefaultValue"], None, ECall (EPath ["Box"; "new"]) [EPath ["NoDefaultValueError"]]);
+        (PTupleStruct ["ErrorKind"; "Io"] [PIdent a None], None, ECall (EPath ["Box"; "new"]) [EPath [a']]);
+        (PTupleStruct ["ErrorKind"; "Conversion"] [PIdent b None], None, EPath [b'])]] => String.eqb a a' && String.eqb b b'
+  | _ => false
+  end.
+Lemma error_conversions_keep_the_class :
+  enters_as "Io" ErrorKind_from_io = true /\ enters_as "Conversion" ErrorKind_from_boxed = true /\
+  leaves_unchanged Boxed_from_kind = true.
+Proof. vm_compute. repeat split. Qed.
